@@ -1164,11 +1164,13 @@ package gldap
 //@ func (*gldap.EntryAttribute).encode
 //@   requires e != nil
 //@   ensures  result != nil && fresh(result) && isSeq(result) && nkids(result) == 2 && isOct(kid(result,0)) && strval(kid(result,0)) == e.Name && isU(kid(result,1), ber.TypeConstructed, ber.TagSet) && nkids(kid(result,1)) == len(e.Values)
+//@   ensures  forall(j, 0, len(e.Values), isOct(kid(kid(result,1),j)) && strval(kid(kid(result,1),j)) == e.Values[j])
 //@   ensures  unchanged("all(ber.Packet)") && unchanged("cell(*ber.Packet)") && unchanged(G_bufdata)
 //@   panics false
 //@   modifies all(ber.Packet), cell(*ber.Packet), G_bufdata, G_pktnew
 //@   tags C04
 //@ loop 1
+//@   invariant forall(j, 0, rangeindex + 1, allocated(kid(set,j)) && kid(set,j) != nil && isOct(kid(set,j)) && strval(kid(set,j)) == e.Values[j])
 //@   invariant set != nil && fresh(set) && isU(set, ber.TypeConstructed, ber.TagSet) && nkids(set) == rangeindex + 1 && set.Data != nil && fresh(set.Data)
 //@   invariant seq != nil && fresh(seq) && isSeq(seq) && nkids(seq) == 1 && isOct(kid(seq,0)) && strval(kid(seq,0)) == e.Name && seq.Data != nil && fresh(seq.Data) && allocated(seq.Children) && fresh(kid(seq,0))
 //@   invariant unchanged("all(ber.Packet)") && unchanged("cell(*ber.Packet)") && unchanged(G_bufdata)
